@@ -89,6 +89,9 @@ func c16Roundtrip(c *core.Ctx, k *core.Case) {
 	if again := p.Marshal(); !bytes.Equal(again, got) {
 		c.Fail(k, "pco-marshal-not-repeatable", fmt.Sprintf("a second Marshal of the same list gives %s, the first gave %s", hx(again), hx(got)))
 	}
+	if _, owned := ownedTwice(p.Marshal); owned != "" {
+		c.Fail(k, "result-not-owned:Marshal", owned)
+	}
 	if !bytes.Equal(got, want) {
 		c.Fail(k, "pco-layout", fmt.Sprintf("Marshal = %s, TS 24.008 10.5.6.3 layout %s", hx(got), hx(want)))
 		return
@@ -198,9 +201,12 @@ func c16Psi(c *core.Ctx, k *core.Case) {
 				break
 			}
 		}
-		back0 := nasConvert.PSIToBuf(arr)
+		back0, owned := ownedTwice(func() []byte { return nasConvert.PSIToBuf(arr) })
+		if owned != "" {
+			c.Fail(kk, "result-not-owned:PSIToBuf", fmt.Sprintf("PSIToBuf(bits of %x): %s", b, owned))
+		}
 		if v%257 == 0 {
-			c.Hold(kk, "nasConvert.PSIToBuf", back0)
+			c.Hold(kk, "nasConvert.PSIToBuf", nasConvert.PSIToBuf(arr))
 		}
 		if back := back0; !bytes.Equal(back, b) {
 			c.Fail(kk, "psi-roundtrip", fmt.Sprintf("PSIToBuf(PSIToBooleanArray(%x)) = %x", b, back))
@@ -228,7 +234,12 @@ func c16ErrCause(c *core.Ctx, k *core.Case) {
 	n := int(k.I[1])
 	ids, causes := r.Bytes(n), r.Bytes(n)
 	c.Eval(1)
-	out := nasConvert.PDUSessionReactivationResultErrorCauseToBuf(cloneB(ids), cloneB(causes))
+	out, owned := ownedTwice(func() []byte {
+		return nasConvert.PDUSessionReactivationResultErrorCauseToBuf(cloneB(ids), cloneB(causes))
+	})
+	if owned != "" {
+		c.Fail(k, "result-not-owned:PDUSessionReactivationResultErrorCauseToBuf", owned)
+	}
 	if len(out) != 2*n {
 		c.Fail(k, "errcause-layout", fmt.Sprintf("%d pairs gave %d octets", n, len(out)))
 		return
@@ -253,6 +264,17 @@ func c16Helpers(c *core.Ctx, k *core.Case) {
 	p := nasConvert.NewProtocolConfigurationOptions()
 	v4a, v4b := net.IP(r.Bytes(4)), net.IP(r.Bytes(4))
 	v6 := net.IP(r.Bytes(16))
+	v4aArg, v4bArg := v4a, v4b
+	switch r.Intn(3) {
+	case 1: // the 16-octet form net.ParseIP and net.IPv4 return for an IPv4 address
+		v4aArg, v4bArg = net.IPv4(v4a[0], v4a[1], v4a[2], v4a[3]), net.IPv4(v4b[0], v4b[1], v4b[2], v4b[3])
+	case 2:
+		v4aArg = net.ParseIP(v4a.String())
+	}
+	if r.Chance(1, 3) {
+		// an IPv4-mapped IPv6 address is a 16-octet address like any other
+		v6 = net.IPv4(r.Byte(), r.Byte(), r.Byte(), r.Byte())
+	}
 	mtu := uint16(r.Uint32())
 	var want []pcoUnit
 	p.AddDNSServerIPv4AddressRequest()
@@ -261,12 +283,12 @@ func c16Helpers(c *core.Ctx, k *core.Case) {
 	want = append(want, pcoUnit{0x0003, nil})
 	p.AddIPAddressAllocationViaNASSignallingUL()
 	want = append(want, pcoUnit{0x000a, nil})
-	e1 := p.AddDNSServerIPv4Address(v4a)
+	e1 := p.AddDNSServerIPv4Address(v4aArg)
 	want = append(want, pcoUnit{0x000d, v4a})
-	e2 := p.AddPCSCFIPv4Address(v4b)
+	e2 := p.AddPCSCFIPv4Address(v4bArg)
 	want = append(want, pcoUnit{0x000c, v4b})
 	e3 := p.AddDNSServerIPv6Address(v6)
-	want = append(want, pcoUnit{0x0003, v6})
+	want = append(want, pcoUnit{0x0003, []byte(v6.To16())})
 	e4 := p.AddIPv4LinkMTU(mtu)
 	want = append(want, pcoUnit{0x0010, []byte{byte(mtu >> 8), byte(mtu)}})
 	c.Eval(1)
@@ -277,13 +299,17 @@ func c16Helpers(c *core.Ctx, k *core.Case) {
 	if got, w := p.Marshal(), pcoRef(want); !bytes.Equal(got, w) {
 		c.Fail(k, "pco-helper-layout", fmt.Sprintf("list built with the Add* helpers marshals to %s, TS 24.008 identifiers and raw contents give %s", hx(got), hx(w)))
 	}
+	back := nasConvert.NewProtocolConfigurationOptions()
+	if err := back.UnMarshal(p.Marshal()); err != nil || len(back.ProtocolOrContainerList) != len(want) {
+		c.Fail(k, "pco-helper-roundtrip", fmt.Sprintf("a list built with the Add* helpers does not parse back: %v, %d of %d units (bytes %s)", err, len(back.ProtocolOrContainerList), len(want), hx(p.Marshal())))
+	}
 	for i, u := range p.ProtocolOrContainerList {
 		if int(u.LengthOfContents) != len(u.Contents) {
 			c.Fail(k, "pco-helper-length", fmt.Sprintf("unit %d: LengthOfContents %d, %d content octets", i, u.LengthOfContents, len(u.Contents)))
 		}
 	}
 	// an IPv6 address where IPv4 is required (and the converse) must be refused
-	if p.AddDNSServerIPv4Address(v6) == nil || p.AddPCSCFIPv4Address(v6) == nil {
+	if v6.To4() == nil && (p.AddDNSServerIPv4Address(v6) == nil || p.AddPCSCFIPv4Address(v6) == nil) {
 		c.Fail(k, "pco-helper-accepts-wrong-family", "an IPv6 address was accepted by an IPv4 helper")
 	}
 }
